@@ -253,6 +253,10 @@ func oracleCommit(c *Ctx, sc *SmtpScenario, run *SmtpRun) {
 		_ = k
 	}
 	for i, m := range run.Msgs {
+		if i < len(run.WarmDelivered) && run.WarmDelivered[i] && used[i] == 0 {
+			// acknowledged in the earlier call (a retry of a delivered message that now fails): IsDelivered stays true
+			continue
+		}
 		if m.Delivered != (used[i] > 0) {
 			c.Violate("c03-isdelivered", fmt.Sprintf("message %d: IsDelivered()=%v but the server acknowledged its end-of-data %d time(s)", i, m.Delivered, used[i]), sc)
 		}
